@@ -88,6 +88,12 @@ def cases(tier, seed):
                         for d in DISP:
                             out.append({"kind": "model", "T": T, "rs": rs, "model": model, "j": j, "k": k, "d": list(d)})
                 out.append({"kind": "brute", "T": T, "rs": rs, "model": model, "seed": seed})
+                if model == "ZNCC" and K > 1:
+                    # density maps on a constant background (not zero-mean): what is swept into the corners of a rotated
+                    # candidate template must be background, not zero
+                    for j in range(T):
+                        for k in range(K):
+                            out.append({"kind": "model", "T": T, "rs": rs, "model": model, "j": j, "k": k, "d": list(DISP[1]), "toffset": 3.0})
             for entry in ("align(stack)", "align_multi_templates", "group(list)", "group(mapping)"):
                 if T == 1 and entry == "group(mapping)":
                     continue
@@ -106,26 +112,26 @@ def _cls(name):
     return {"ZNCC": al.ZNCCAlignment, "NCC": al.NCCAlignment, "PCC": al.PCCAlignment, "FSC": al.FSCAlignment}[name]
 
 
-def _templates(T):
+def _templates(T, offset=0.0):
     """zero-mean, unit-norm templates: with equal norms the un-normalised scores (PCC) of
     different templates are comparable, so 'made from template j' implies 'template j scores best'"""
     out = []
     for j in range(T):
         t = data.particle_box(SHAPE, blobs=BLOBSETS[j]).astype(np.float64)
         t = t - t.mean()
-        out.append((10.0 * t / np.sqrt((t * t).sum())).astype(np.float32))
+        out.append((10.0 * t / np.sqrt((t * t).sum()) + offset).astype(np.float32))
     return out
 
 
 _CACHE = {}
 
 
-def _model(T, rs, model):
-    key = (T, rs, model)
+def _model(T, rs, model, offset=0.0):
+    key = (T, rs, model, offset)
     if key not in _CACHE:
         if len(_CACHE) > 3:
             _CACHE.clear()
-        tm = _templates(T)
+        tm = _templates(T, offset)
         kw = {}
         if ROTSETS[rs] is not None:
             kw["rotations"] = _rotations_arg(rs)
@@ -159,7 +165,7 @@ def run_case(case):
 
     T, rs, mname, j, k = case["T"], case["rs"], case["model"], case["j"], case["k"]
     d = np.asarray(case["d"], dtype=np.float64)
-    model = _model(T, rs, mname)
+    model = _model(T, rs, mname, case.get("toffset", 0.0))
     K = _K(rs)
     quats = np.asarray(model.quaternions)
     assert quats.shape[0] == K, (quats.shape, K)
